@@ -40,6 +40,7 @@ type output struct {
 	I     int    `json:"i"`
 	Stage string `json:"stage"`
 	Err   string `json:"err"`
+	Err2  string `json:"err2,omitempty"`
 	Panic string `json:"panic,omitempty"`
 }
 
@@ -104,6 +105,13 @@ func load(i int, in input) (out output) {
 	}
 	if err := xconfmap.Validate(cfg); err != nil {
 		out.Stage, out.Err = "validate", err.Error()
+		// the same error value rendered again (a caller that logs it and then prints it): the entry it names must not change
+		for _, again := range []string{fmt.Sprintf("%v", err), err.Error(), fmt.Sprint(err)} {
+			if again != out.Err {
+				out.Err2 = again
+				break
+			}
+		}
 	}
 	return out
 }
